@@ -268,6 +268,13 @@ def check_tree(data: dict, lab: Labels) -> None:
             rec(c)
 
     rec(res)
+    # no stale registry keys: whatever is returned under an id (or under the un-suffixed form of a
+    # suffixed id) must carry that id
+    for s_ in snap:
+        for key in {s_["id"], s_["id"].split("_")[0]}:
+            r_ = ASTNode.get_any(key)
+            require(r_ is None or r_.id == key, "lookup-returns-node-with-other-id",
+                    f"get_any({key!r}) returns a node whose id is {getattr(r_, 'id', None)!r}")
     if root_kept:
         require(res is orig_by_obj[0], "root-original-not-returned", "")
     if mode == 3 or root_kept:
